@@ -317,6 +317,15 @@ class HeaderPacketReceiver(Elaboratable):
         last_enable = Signal()
         m.d.ss     += last_enable.eq(self.enable)
 
+        # A disable edge or a USB reset can arrive while we're busy sending a link command.
+        # Remember either until our command FSM is back in its dispatch state, where we act on them.
+        disable_seen   = Signal()
+        usb_reset_seen = Signal()
+        with m.If(last_enable & ~self.enable):
+            m.d.ss += disable_seen.eq(1)
+        with m.If(self.usb_reset):
+            m.d.ss += usb_reset_seen.eq(1)
+
         #
         # Header Packet Buffers
         #
@@ -491,8 +500,11 @@ class HeaderPacketReceiver(Elaboratable):
 
                 # Once we've become disabled, we'll want to prepare for our next enable.
                 # This means preparing for our advertisement, by:
-                with m.If((last_enable & ~self.enable) | self.usb_reset):
+                with m.If((last_enable & ~self.enable) | self.usb_reset | disable_seen | usb_reset_seen):
                     m.d.ss += [
+                        disable_seen          .eq(0),
+                        usb_reset_seen        .eq(0),
+
                         # -Resetting our pending ACKs to 1, so we perform an sequence number advertisement
                         #  when we're next enabled.
                         acks_to_send          .eq(1),
@@ -519,7 +531,7 @@ class HeaderPacketReceiver(Elaboratable):
                     ]
 
                     # If this is a USB Reset, also reset our sequences.
-                    with m.If(self.usb_reset):
+                    with m.If(self.usb_reset | usb_reset_seen):
                         m.d.ss += [
                             expected_sequence_number  .eq(0),
                             next_header_to_ack        .eq(-1)
